@@ -108,7 +108,6 @@ MI = "C03-multi-index-order"
 ET = "C03-elem-assign-call-twice"
 PR = "C03-println-retry"
 IT = "C03-index-twice-out-of-bounds"
-TN = "C01-elem-assign-ternary"
 
 
 def _shape(ctx, e, can_fail, shape=None):
@@ -119,8 +118,6 @@ def _shape(ctx, e, can_fail, shape=None):
         return PR                      # println re-evaluates an argument whose evaluation failed
     if ctx == "elem-store" and e.startswith("(call"):
         return ET                      # a[i] = f(..) evaluates the call twice
-    if ctx == "elem-store" and e.startswith("(cond"):
-        return TN                      # a[i] = (c ? x : y) stores 0
     return None
 
 
@@ -128,6 +125,8 @@ def systematic():
     """Yields (sexpr, feats, shape): all operators x operand values x contexts with traced / failing operands."""
     for ctx in CONTEXTS:
         def case(e, feats, can_fail=False, shape=None, pre=""):
+            if ctx == "elem-store" and e.startswith("(cond"):
+                e = "(bin + %s 0)" % e      # C01-elem-assign-ternary (a[i] = (c ? x : y) stores 0) belongs to C01
             return program(ctx, e, pre=pre), feats, _shape(ctx, e, can_fail, shape)
         # binary operators: both operands traced, all value combinations
         for op in BINOPS:
@@ -290,7 +289,7 @@ def random_program(rng, avoid=True, multi_index=False):
     ctxs = [c for c in CONTEXTS if avoid is False or c not in ()]
     ctx = rng.choice(ctxs)
     e = g.expr(rng.choice([1, 2, 2, 3]))
-    if ctx == "elem-store" and avoid:
+    if ctx == "elem-store" and (avoid or e.startswith("(cond")):
         e = "(bin + %s 0)" % e          # finding C03-elem-assign-call-twice / C01-elem-assign-ternary: never a bare call / ?:
     if ctx == "print" or ctx == "print2":
         if avoid and "failing-operand" in g.feats:
